@@ -45,6 +45,7 @@ view == <<life, stv, opt, pend, ch, buf, cnt, now, fr, ncalls>>
 (* ---- constants of the API (Linux values; the library's error constants are negated errnos) ---- *)
 INF == -1
 DEADLINE == -2
+DrainChunk == 4096   \* size of the buffer reproc_drain reads with
 EINVAL == -22
 EPIPE == -32
 ETIMEDOUT == -110
@@ -197,26 +198,42 @@ StreamBuf(s, h, st) == IF st = S_OUT THEN s.buf[h].o ELSE s.buf[h].e
 StreamOpen(s, h, st) == IF st = S_OUT THEN s.pend[h].o ELSE s.pend[h].e
 StreamWriters(s, h, st) == IF st = S_OUT THEN OutWriters(s, h) ELSE ErrWriters(s, h)
 
-\* byte runs <<tag, offset, n>> for the first k bytes of a pipe, given the delivered counters
-RECURSIVE RunsOf(_, _, _, _)
-RunsOf(bytes, k, d1, d2) ==
-  IF k = 0 \/ bytes = <<>> THEN <<>>
-  ELSE LET tag == Head(bytes)
-           m == CHOOSE n \in 1..k : /\ \A j \in 1..n : bytes[j] = tag
-                                    /\ (n = k \/ n = Len(bytes) \/ bytes[n + 1] # tag)
-           off == IF tag = 1 THEN d1 ELSE d2
-       IN <<<<tag, off, m>>>> \o RunsOf(SubSeq(bytes, m + 1, Len(bytes)), k - m,
-                                      IF tag = 1 THEN d1 + m ELSE d1, IF tag = 2 THEN d2 + m ELSE d2)
-
-CountTag(bytes, tag) == Cardinality({j \in 1..Len(bytes) : bytes[j] = tag})
+\* Pipe contents are run-length coded: a sequence of <<tag, n>> (n > 0 bytes of origin tag; adjacent runs differ in tag),
+\* so that capacities and payloads of any size (64 KiB pipes, megabytes) cost nothing.
+RECURSIVE BLen(_)
+BLen(b) == IF b = <<>> THEN 0 ELSE Head(b)[2] + BLen(Tail(b))
+BAppend(b, tag, n) ==
+  IF n = 0 THEN b
+  ELSE IF b # <<>> /\ b[Len(b)][1] = tag THEN [b EXCEPT ![Len(b)] = <<tag, b[Len(b)][2] + n>>]
+  ELSE Append(b, <<tag, n>>)
+\* the first k bytes / what is left after them
+RECURSIVE BTake(_, _)
+BTake(b, k) ==
+  IF k = 0 \/ b = <<>> THEN <<>>
+  ELSE IF Head(b)[2] <= k THEN <<Head(b)>> \o BTake(Tail(b), k - Head(b)[2])
+  ELSE <<<<Head(b)[1], k>>>>
+RECURSIVE BDrop(_, _)
+BDrop(b, k) ==
+  IF k = 0 \/ b = <<>> THEN b
+  ELSE IF Head(b)[2] <= k THEN BDrop(Tail(b), k - Head(b)[2])
+  ELSE <<<<Head(b)[1], Head(b)[2] - k>>>> \o Tail(b)
+RECURSIVE CountTag(_, _)
+CountTag(b, tag) == IF b = <<>> THEN 0 ELSE (IF Head(b)[1] = tag THEN Head(b)[2] ELSE 0) + CountTag(Tail(b), tag)
+\* byte runs <<tag, offset, n>> as the reader sees them, given how much of each origin was delivered before
+RECURSIVE RunsOf(_, _, _)
+RunsOf(taken, d1, d2) ==
+  IF taken = <<>> THEN <<>>
+  ELSE LET tag == Head(taken)[1]
+           m == Head(taken)[2]
+       IN <<<<tag, IF tag = 1 THEN d1 ELSE d2, m>>>> \o RunsOf(Tail(taken), IF tag = 1 THEN d1 + m ELSE d1, IF tag = 2 THEN d2 + m ELSE d2)
 
 Deliverk(s, h, st, k) ==
   LET b == StreamBuf(s, h, st)
-      taken == SubSeq(b, 1, k)
-      rest == SubSeq(b, k + 1, Len(b))
+      taken == BTake(b, k)
+      rest == BDrop(b, k)
       s1 == IF st = S_OUT THEN [s EXCEPT !.buf[h].o = rest] ELSE [s EXCEPT !.buf[h].e = rest]
   IN [s1 EXCEPT !.cnt[h].d1 = @ + CountTag(taken, 1), !.cnt[h].d2 = @ + CountTag(taken, 2),
-                !.fr.r = k, !.fr.x = RunsOf(b, k, s.cnt[h].d1, s.cnt[h].d2)]
+                !.fr.r = k, !.fr.x = RunsOf(taken, s.cnt[h].d1, s.cnt[h].d2)]
 
 ClosePend(s, h, st) ==
   IF st = S_IN THEN [s EXCEPT !.pend[h].i = FALSE]
@@ -230,8 +247,8 @@ RunRead(s) ==
       b == StreamBuf(s, h, st)
   IN
   IF ~StreamOpen(s, h, st) THEN Done([s EXCEPT !.fr.r = EPIPE])
-  ELSE IF Len(b) > 0 /\ n = 0 THEN Done([s EXCEPT !.fr.r = 0])   \* nothing asked for: nothing consumed, nothing closed
-  ELSE IF Len(b) > 0 THEN Done(Deliverk(s, h, st, Min(n, Len(b))))
+  ELSE IF b # <<>> /\ n = 0 THEN Done([s EXCEPT !.fr.r = 0])   \* nothing asked for: nothing consumed, nothing closed
+  ELSE IF b # <<>> THEN Done(Deliverk(s, h, st, Min(n, BLen(b))))
   ELSE IF StreamWriters(s, h, st) = {} THEN Done([ClosePend(s, h, st) EXCEPT !.fr.r = EPIPE])
   ELSE IF s.opt[h].nb THEN Done([s EXCEPT !.fr.r = EWOULDBLOCK])
   ELSE Block(s, INF)
@@ -348,9 +365,10 @@ RunDrain(s) ==
       \* process one ready stream st through sink k
       Step(st, k) ==
         LET b == StreamBuf(s, h, st) IN
-        IF Len(b) > 0
+        IF b # <<>>
           THEN LET rv == SinkRet(s, k)
-                   s1 == SinkCall([Deliverk(s, h, st, Len(b)) EXCEPT !.fr.r = 0, !.fr.x = s.fr.x], k, Len(b), 0)
+                   nb_ == Min(BLen(b), DrainChunk)     \* drain reads with a buffer of DrainChunk bytes
+                   s1 == SinkCall([Deliverk(s, h, st, nb_) EXCEPT !.fr.r = 0, !.fr.x = s.fr.x], k, nb_, 0)
                IN IF rv # 0 THEN EndDrain(s1, rv) ELSE RunDrain(s1)
           ELSE LET rv == SinkRet(s, k)
                    s1 == SinkCall(ClosePend(s, h, st), k, 0, 1)
@@ -632,8 +650,8 @@ ChildDie(h) ==
 
 ChildOut(h, n) ==
   /\ EnvOK /\ ch[h].alive = "run" /\ ch[h].fd[2] = "po" /\ pend[h].o
-  /\ Len(buf[h].o) + n <= PipeCap /\ cnt[h].cw1 + n <= MaxOut
-  /\ buf' = [buf EXCEPT ![h].o = @ \o [k \in 1..n |-> 1]]
+  /\ BLen(buf[h].o) + n <= PipeCap /\ cnt[h].cw1 + n <= MaxOut
+  /\ buf' = [buf EXCEPT ![h].o = BAppend(@, 1, n)]
   /\ cnt' = [cnt EXCEPT ![h].cw1 = @ + n]
   /\ hist' = Append(hist, EnvRec("out", h, [n |-> n]))
   /\ UNCHANGED <<life, stv, opt, pend, ch, now, fr, ncalls>>
@@ -641,10 +659,10 @@ ChildOut(h, n) ==
 ChildErr(h, n) ==
   /\ EnvOK /\ ch[h].alive = "run" /\ ch[h].fd[3] \in {"po", "pe"} /\ cnt[h].cw2 + n <= MaxOut
   /\ IF ch[h].fd[3] = "po"
-       THEN /\ pend[h].o /\ Len(buf[h].o) + n <= PipeCap
-            /\ buf' = [buf EXCEPT ![h].o = @ \o [k \in 1..n |-> 2]]
-       ELSE /\ pend[h].e /\ Len(buf[h].e) + n <= PipeCap
-            /\ buf' = [buf EXCEPT ![h].e = @ \o [k \in 1..n |-> 2]]
+       THEN /\ pend[h].o /\ BLen(buf[h].o) + n <= PipeCap
+            /\ buf' = [buf EXCEPT ![h].o = BAppend(@, 2, n)]
+       ELSE /\ pend[h].e /\ BLen(buf[h].e) + n <= PipeCap
+            /\ buf' = [buf EXCEPT ![h].e = BAppend(@, 2, n)]
   /\ cnt' = [cnt EXCEPT ![h].cw2 = @ + n]
   /\ hist' = Append(hist, EnvRec("err", h, [n |-> n]))
   /\ UNCHANGED <<life, stv, opt, pend, ch, now, fr, ncalls>>
